@@ -257,6 +257,12 @@ func (s *sharedObjects) observerOps() []c19Op {
 				return digest(b.String())
 			}},
 			c19Op{"ToMap", name, func() string { return digest(len(m.ToMap()), repDigest(ordered.ToMapRecursive(m))) }},
+			c19Op{"Derive", name, func() string {
+				// the derived-map API reads its source
+				t := ordered.TransformValues(m, func(v any) any { return v })
+				_, aerr := ordered.AssertValues[string](m)
+				return digest(t.Len(), aerr != nil, repDigest(ordered.ToMapRecursive(m)))
+			}},
 			c19Op{"Equal", name, func() string { return digest(ordered.Equal(m, m), ordered.Equal(m, s.maps[(i+1)%len(s.maps)])) }},
 			c19Op{"MarshalJSON", name, func() string { b, err := json.Marshal(m); return digest(string(b), err) }},
 			c19Op{"MarshalYAML", name, func() string { b, err := yaml.Marshal(m); return digest(string(b), err) }},
@@ -298,6 +304,19 @@ func (s *sharedObjects) observerOps() []c19Op {
 			for _, c := range s.cmds {
 				err := c.InterpolateMatrixPermutation(pipeline.MatrixPermutation{"no-such-dimension": "x", "another": "y", "third": "z", "fourth": "w"})
 				fmt.Fprintf(&b, "%v;", err != nil)
+			}
+			return digest(b.String())
+		}},
+		c19Op{"SignShared", "pipeline", func() string {
+			// signing READS the step (and the env map): the shared steps are signed again, the new signatures are not attached
+			var b strings.Builder
+			for _, c := range s.cmds {
+				sg, err := signature.Sign(ctx, getKey(s.keyAlg, "K1").sign, &signature.CommandStepWithInvariants{CommandStep: *c, RepositoryURL: s.repo}, signature.WithEnv(s.env))
+				if err != nil {
+					fmt.Fprintf(&b, "err;")
+					continue
+				}
+				fmt.Fprintf(&b, "%v;", sg.SignedFields)
 			}
 			return digest(b.String())
 		}},
@@ -556,5 +575,5 @@ func runC19(args []string) {
 	}
 	f.Close()
 	writeSummary(fl.str("summary", ""), obj{"events": nseq + nconc + races, "sequential_events": nseq, "concurrent_events": nconc, "race_reports": races,
-		"samples": []any{obj{"goroutines": fl.int("goroutines", 16), "rounds": fl.int("rounds", 20), "shared_objects": "ordered maps with tombstones (MapSA, MapSS), a signed pipeline, an env map", "ops": "Get Range ToMap Equal MarshalJSON MarshalYAML FullSource Verify RejectedPermutation SignWithSharedEnv; own: Parse Interpolate MarshalYAML SignVerify"}}})
+		"samples": []any{obj{"goroutines": fl.int("goroutines", 16), "rounds": fl.int("rounds", 20), "shared_objects": "ordered maps with tombstones (MapSA, MapSS), a signed pipeline, an env map", "ops": "Get Range ToMap Derive(TransformValues,AssertValues,ToMapRecursive) Equal MarshalJSON MarshalYAML FullSource Verify RejectedPermutation SignShared SignWithSharedEnv; own: InterpolateNilEnv Parse Interpolate MarshalYAML SignVerify"}}})
 }
